@@ -68,6 +68,17 @@ def load_known(pid):
     return findings, fixed
 
 
+def known_patterns(findings, exclude=None):
+    """Keys and 'also' patterns of the listed findings (optionally without one finding)."""
+    out = []
+    for f in findings:
+        if exclude is not None and f["key"] == exclude:
+            continue
+        out.append(f["key"])
+        out.extend(f.get("also", []))
+    return sorted(set(out))
+
+
 # ---------------------------------------------------------------- workers
 def _run_chunk(pid, tier, base_seed, indices, known_keys, want_digests):
     world = load_world(pid)
@@ -125,7 +136,8 @@ def _digests_only(pid, tier, base_seed, indices, known_keys):
 def write_replay(pid, seed, plan, violation, digest, minimised_from, n_exec):
     d = os.path.join(VERIF, "replays")
     os.makedirs(d, exist_ok=True)
-    path = os.path.join(d, f"{pid}-{seed}.json")
+    tag = hashlib.sha1((violation or {}).get("key", "").encode()).hexdigest()[:6]
+    path = os.path.join(d, f"{pid}-{seed}-{tag}.json")
     doc = {
         "format": FORMAT, "property": pid, "seed": seed, "plan": plan, "violation": violation,
         "digest": digest, "minimised_from_steps": minimised_from, "minimise_executions": n_exec,
@@ -141,7 +153,9 @@ def do_replay(pid, path):
     pid = doc["property"] if pid is None else pid
     world = load_world(pid)
     findings, _ = load_known(pid)
-    known_keys = [f["key"] for f in findings]
+    known_keys = known_patterns(findings)
+    if doc.get("violation") and any(doc["violation"]["key"] == k for k in known_keys):
+        known_keys = []  # replaying a known finding's own reproducer: show it
     r = execute(world, doc["plan"], known_keys, keep_events=True)
     for e in r.events:
         print("  event", e)
@@ -172,7 +186,7 @@ def run_check(pid, tier, base_seed, n_runs=None, budget_s=None, workers=None):
     workers = workers or int(os.environ.get("VERIF_WORKERS", 0)) or min(16, os.cpu_count() or 1)
     k_det = tiercfg.get("determinism_seeds", 8)
     findings, fixed = load_known(pid)
-    known_keys = sorted(f["key"] for f in findings)
+    known_keys = known_patterns(findings)
     exit_code = 0
     out_violations = []
     print(f"[{pid}] tier={tier} VERIF_SEED={base_seed} runs={n_runs} workers={workers} budget={budget_s}s")
@@ -182,7 +196,7 @@ def run_check(pid, tier, base_seed, n_runs=None, budget_s=None, workers=None):
     for f in findings:
         rp = os.path.join(VERIF, f["reproducer"])
         doc = json.load(open(rp))
-        r = execute(world, doc["plan"], [k for k in known_keys if k != f["key"]])
+        r = execute(world, doc["plan"], known_patterns(findings, exclude=f["key"]))
         if r.harness_error:
             print(f"HARNESS-ERROR replaying known finding {f['key']}:\n{r.harness_error}")
             exit_code = 2
@@ -348,7 +362,9 @@ def run_check(pid, tier, base_seed, n_runs=None, budget_s=None, workers=None):
         "violations": len(reported),
     }
     os.makedirs(os.path.join(VERIF, "evidence"), exist_ok=True)
-    with open(os.path.join(VERIF, "evidence", f"{pid}.json"), "w") as f:
+    # a run against a scratch copy (mutant) must never overwrite the evidence of the real tree
+    ev_name = f"{pid}.json" if not os.environ.get("VERIF_REPO_ROOT") else f"{pid}.scratch.json"
+    with open(os.path.join(VERIF, "evidence", ev_name), "w") as f:
         json.dump(evidence, f, indent=1, sort_keys=True)
     print(f"[{pid}] runs={agg['runs']} steps={agg['steps']} distinct_nontrivial={len(agg['sigs'])} "
           f"faults={sum(agg['faults'].values())} known_hits={sum(agg['known_hits'].values())} "
@@ -371,20 +387,21 @@ def main(argv=None):
     a = ap.parse_args(argv)
     # hash randomisation is neutralised by re-exec (and varied in the self-test)
     if os.environ.get("PYTHONHASHSEED") is None and not os.environ.get("VERIF_REEXEC"):
-        env = dict(os.environ, PYTHONHASHSEED="0", PYTHONDONTWRITEBYTECODE="1", VERIF_REEXEC="1")
+        env = dict(os.environ, PYTHONHASHSEED="0", PYTHONDONTWRITEBYTECODE="1", VERIF_REEXEC="1",
+                   OMP_NUM_THREADS="1", OPENBLAS_NUM_THREADS="1", MKL_NUM_THREADS="1")
         os.execve(sys.executable, [sys.executable, os.path.join(VERIF, "check")] + (argv or sys.argv[1:]), env)
     if a.replay:
         return do_replay(a.pid if a.pid != "-" else None, a.replay)
     if a.digests:
         findings, _ = load_known(a.pid)
         idx = [int(x) for x in a.digests.split(",") if x]
-        print(json.dumps({str(k): v for k, v in _digests_only(a.pid, a.tier, a.seed, idx, sorted(f["key"] for f in findings)).items()}))
+        print(json.dumps({str(k): v for k, v in _digests_only(a.pid, a.tier, a.seed, idx, known_patterns(findings)).items()}))
         return 0
     if a.one is not None:
         world = load_world(a.pid)
         findings, _ = load_known(a.pid)
         plan = world.gen_plan(a.seed * SEED_MUL + a.one, a.tier)
-        r = execute(world, plan, sorted(f["key"] for f in findings), keep_events=True)
+        r = execute(world, plan, known_patterns(findings), keep_events=True)
         print(json.dumps(plan, indent=1)[:6000])
         for e in r.events:
             print(e)
